@@ -39,7 +39,7 @@ func errorValuesOf(fn *ssa.Function) []ssa.Value {
 
 func c16(r *core.Run) {
 	p := r.P
-	r.Explain = "C16 decided structurally: (ERR) in the per-file worker a result without an error message is returned only on the path where every error-returning step succeeded and the size test passed; a recover() in a per-file goroutine of the check command records an error for that file's slot and raises the error flag, in the scan command it writes a diagnostic naming the file; (STRICT) with strict mode on and the error flag set no success return is reachable, and the flag is raised whenever a result carries an error message; (ENUM) the enumerator visits function members and all methods of named types, recurses into anonymous functions on every non-skipped path and skips synthetic functions only if they are not range-over-func bodies; (WALK) the file collector's decisions are built only from the enumerated exclusion atoms (vendor, hidden and not the root, not .go, _test.go, walk error, is-directory) — closed world; (SIZE) size tests precede reading and reads are bounded by LimitReader; (ATTR) file/line come from the function's own position. Not decided: the value of the walk predicate on every possible file name (only its atom set), files excluded by build constraints."
+	r.Explain = "C16 decided structurally: (ERR) in the per-file worker a result without an error message is returned only on the path where every error-returning step succeeded and the size test passed; a recover() in a per-file goroutine of the check command records an error for that file's slot and raises the error flag, in the scan command it writes a diagnostic naming the file; (STRICT) with strict mode on and the error flag set no success return is reachable, and the flag is raised whenever a result carries an error message; (ENUM) the enumerator visits function members and all methods of named types, recurses into anonymous functions on every non-skipped path and skips synthetic functions only if they are not range-over-func bodies; (WALK) the file collector's decisions are built only from the enumerated exclusion atoms (vendor, hidden and not the root, not .go, _test.go, walk error, is-directory) — closed world; (SIZE) size tests precede reading and reads are bounded by LimitReader; (ATTR) file/line come from the function's own position. Not decided: the value of the walk predicate on every possible file name (only its atom set), files excluded by build constraints. (ENUM, sharpened) the synthetic-function skip never returns for the package initialiser before its anonymous functions are visited."
 	r.Undecided = []string{"value of the walk predicate on every file name", "files dropped by go/packages because of build constraints"}
 
 	// ---- per-file worker: returns models.FileOutput
